@@ -80,6 +80,7 @@ structure Facts where
   commentStopsAtEof : Bool
   rejectsNegativeCounts : Bool
   rejectsEmptyRows : Bool
+  keywordRowsAreResidues : Bool := false
 
 /-- `consumeComment` after a `[`: scan up to `]`.  `err` = an EOF was met on the way (the Go code
 records "unmatched bracket" and, unless repaired, keeps looping). -/
@@ -237,11 +238,17 @@ def formatLoop : Nat → Seq → Data → R (Data × Seq)
     | _ => do let r ← skipKey r2; formatLoop fuel r d
 
 /-- the tokens of one matrix row after the name: identifiers are concatenated up to the line end -/
-def rowLoop : Nat → Seq → Seq → R (Seq × Seq)
+def isKeyword (k : Kind) : Bool :=
+  match k with
+  | .nexus | .begin | .data | .taxa | .taxlabels | .trees | .tree | .dimensions | .ntax | .nchar
+  | .format | .datatype | .missing | .gap | .matchchar | .matrix | .end_ => true
+  | _ => false
+
+def rowLoop (f : Facts) : Nat → Seq → Seq → R (Seq × Seq)
   | 0, _, _ => .error .hang
   | fuel + 1, inp, acc =>
     let (t, r) := sIW inp
-    if t.kind == .ident then rowLoop fuel r (acc ++ t.lit)
+    if t.kind == .ident || (f.keywordRowsAreResidues && isKeyword t.kind) then rowLoop f fuel r (acc ++ t.lit)
     else if t.kind == .endofline then pure (acc, r)
     else .error .error
 
@@ -260,7 +267,7 @@ def matrixLoop (f : Facts) : Nat → Seq → List XRow → R (List XRow × Seq)
       let r' ← consumeComment f (r.length + 3) r false
       matrixLoop f fuel r' rows
     | .ident | .numeric => do
-      let (q, r') ← rowLoop (r.length + 3) r []
+      let (q, r') ← rowLoop f (r.length + 3) r []
       matrixLoop f fuel r' (addseq rows t.lit q)
     | .endofline => matrixLoop f fuel r rows
     | .endofcommand => pure (rows, r)
